@@ -150,9 +150,13 @@ class C18Session(Session):
                                     kwargs={"x": list(tr["x"]), "y": [0, 1], "z": [0, 0], "mode": "lines"})
 
     # -- the copy op ---------------------------------------------------------------
-    def _copy_kwargs(self, kw):
+    def _copy_kwargs(self, kw, obj=None):
         out = {}
         for k, v in kw.items():
+            if isinstance(v, dict) and "$substyle" in v:
+                # a style OBJECT taken from the original (documented input: "dict or `Path` object")
+                out[k] = getattr(obj.style, v["$substyle"])
+                continue
             if k == "orientation":
                 out[k] = rot_from(v)
             elif k == "parent":
@@ -165,7 +169,7 @@ class C18Session(Session):
         with warnings.catch_warnings(), contextlib.redirect_stdout(io.StringIO()):
             warnings.simplefilter("error" if warn_error else "ignore")
             try:
-                return "ok", obj.copy(**self._copy_kwargs(kw))
+                return "ok", obj.copy(**self._copy_kwargs(kw, obj))
             except Exception as e:
                 return "raised:" + type(e).__name__, None
 
@@ -207,7 +211,13 @@ class C18Session(Session):
                     kw = dict(items)
                 out, new = self._do_copy(obj, kw, warn_error=var["kind"] == "warn_error")
                 if out == "ok" and new is not None and new._parent is not None:
-                    new.parent = None  # an accepted copy(parent=coll) legitimately hangs under coll: detach it
+                    if "parent" not in kw:
+                        raise Violation("copy_has_parent", "copy.parent is not None", op="copy")
+                    try:
+                        new.parent = None  # an accepted copy(parent=coll) legitimately hangs under coll: detach it
+                    except Exception as e:
+                        raise Violation("copy_has_parent", f"copy(parent=coll) cannot be detached again: "
+                                        f"{type(e).__name__}", op="copy") from None
                 post = self._world_snap()
             finally:
                 if attached:
@@ -255,7 +265,11 @@ class C18Session(Session):
                 raise Violation("override_not_applied", "copy(parent=coll): the copy is not the last child of coll",
                                 op="copy", attr="parent")
             self.probe("copy_with_parent_kwarg")
-            new.parent = None  # detach again (public API): the original world must be back to what it was
+            try:
+                new.parent = None  # detach again (public API): the original world must be back to what it was
+            except Exception as e:
+                raise Violation("copy_has_parent", f"copy(parent=coll) cannot be detached again: {type(e).__name__}",
+                                op="copy") from None
             post = self._world_snap()
         if post != pre:
             path = first_diff(pre, post)
@@ -347,9 +361,12 @@ class C18Session(Session):
                 ok = a.shape == b.shape and np.allclose(a, b)
             if not ok:
                 raise Violation("override_not_applied", f"copy.{k} != override", op="copy", attr=k)
+        sub_tops = {k[6:] for k, v in kw.items() if isinstance(v, dict) and "$substyle" in v}
         for k, v in kw.items():
-            if k.startswith("style_"):
+            if k.startswith("style_") and not (isinstance(v, dict) and "$substyle" in v):
                 leaf = k[6:]
+                if leaf.split("_")[0] in sub_tops:
+                    continue  # the whole sub-style is given as an object in the same call: order decides
                 got = new.style.as_dict(flatten=True, separator="_").get(leaf)
                 if not _style_eq(got, v):
                     raise Violation("override_not_applied", f"copy.style.{leaf} = {got!r}, override {v!r}",
@@ -623,6 +640,10 @@ class Sim:
                 else:
                     k, vals = rng.choice(style_leaves(cls))
                     kw["style_" + k] = rng.choice(vals)
+        if rng.random() < 0.1:
+            kw["style_" + rng.choice(["path", "description", "legend", "model3d"])] = {"$substyle": None}
+            k_ = [k for k in kw if isinstance(kw[k], dict) and "$substyle" in kw[k]][0]
+            kw[k_] = {"$substyle": k_[6:]}
         if cols and rng.random() < 0.15:
             # copy(parent=coll): only collections of the original world that are not inside the copied subtree
             sub = {id(x) for x in subtree(obj)}
